@@ -937,8 +937,8 @@ func (w *World) release(it *Item, now int64) {
 		it.wt = nil
 	}
 	w.remove(it)
-	if it.src == "hb" && it.err != nil {
-		// a refused or failed refresh: the next quiescent point is recorded even if nothing visible changes
+	if it.src == "hb" && it.err != nil && it.fault == "" {
+		// a refresh refused by the store (not an injected fault or a late answer): the next quiescent point is recorded even if nothing visible changes
 		// (the monitor judges "demoted at the completion of the next heartbeat attempt" there)
 		if in := w.insts[it.inst]; in != nil {
 			in.lastSnap = ""
